@@ -518,3 +518,47 @@ pub fn model_apply(os: &mut SimOs, op: &str, args: &[String]) -> io::Result<Stri
         other => Err(io::Error::other(format!("model_apply: unknown op {other}"))),
     }
 }
+
+/// `std::fs::read` (not used by the pinned tree; provided so that a change to a byte-level read
+/// still runs under simulation).
+pub fn read<P: AsRef<Path>>(path: P) -> io::Result<Vec<u8>> {
+    let p = p2s(&path);
+    dispatch!("read", [p], |b: &Vec<u8>| String::from_utf8_lossy(b).into_owned(),
+        pass: std::fs::read(path),
+        real: |root| std::fs::read(real_join(&root, &p)),
+        sim: |os, fault| (sim_read_bytes(os, &p, fault), false))
+}
+
+fn sim_read_bytes(os: &mut SimOs, p: &str, fault: Option<FaultSpec>) -> io::Result<Vec<u8>> {
+    if let Some(f) = fault {
+        return e(f.errno);
+    }
+    let p = npath(p)?;
+    os.walk_parent(&p).or_else(e)?;
+    if p.is_empty() {
+        return e(libc::EISDIR);
+    }
+    match os.nodes.get(&p) {
+        None => e(missing_errno(&p)),
+        Some(Node::Dir) => e(libc::EISDIR),
+        Some(Node::File(b)) => Ok(b.clone()),
+    }
+}
+
+/// `std::fs::exists`
+pub fn exists<P: AsRef<Path>>(path: P) -> io::Result<bool> {
+    let p = p2s(&path);
+    dispatch!("exists", [p], |b: &bool| b.to_string(),
+        pass: std::fs::exists(path),
+        real: |root| std::fs::exists(real_join(&root, &p)),
+        sim: |os, fault| (
+            match fault {
+                Some(f) => e(f.errno),
+                None => match npath(&p) {
+                    Ok(n) => Ok(os.walk_parent(&n).is_ok() && os.exists(&n)),
+                    Err(_) => Ok(false),
+                },
+            },
+            false
+        ))
+}
